@@ -1,8 +1,9 @@
 SPECIFICATION Spec
 CONSTANTS
-  MaxLen = 3
+  Shapes <- ShapesQ
+  Depth = 2
   Dump = TRUE
-  UseCache = TRUE
-
+INVARIANT ImplAgrees
+INVARIANT InRange
 INVARIANT Publish
 CHECK_DEADLOCK FALSE
